@@ -98,6 +98,9 @@ func vSeriesDataW(dt telem.DataType, raw, l, wide int) []byte {
 		out := []byte{}
 		for p := 0; p < l; p++ {
 			n := (raw+2*p)%4 + wide
+			if raw >= 4 {
+				n++ // frames of many series: no empty payloads, so that every series stays distinguishable
+			}
 			var pre [4]byte
 			binary.LittleEndian.PutUint32(pre[:], uint32(n))
 			out = append(out, pre[:]...)
@@ -353,6 +356,7 @@ func vNewPair(cfg vLCfg, conc *vConc) vCodecPair {
 
 type vLStats struct {
 	cases, merged2, merged3, wide int
+	many, ties, instant           int // cases with >= 13 series / with equal (key, alignment) left apart / with a [t,t) range
 	flags                         [64]int
 }
 
@@ -425,6 +429,26 @@ func vLayoutCase(fr vLFrame, cfgName string, conc *vConc, pair vCodecPair, st *v
 	}
 	// the specification: flag byte, size, exact series list
 	st.cases++
+	if len(keptS) >= 13 {
+		st.many++
+	}
+	tie, inst := false, false
+	for i := 1; i < len(exp.D); i++ {
+		if exp.D[i].K == exp.D[i-1].K && exp.D[i].A == exp.D[i-1].A {
+			tie = true
+		}
+	}
+	for _, x := range fr.S {
+		if x[2] == x[3] && x[2] != 0 {
+			inst = true
+		}
+	}
+	if tie {
+		st.ties++
+	}
+	if inst {
+		st.instant++
+	}
 	if len(enc) < 5 {
 		return "drift", fmt.Sprintf("wire too short: %x", enc)
 	}
@@ -563,6 +587,9 @@ func TestVerifCodecLayout(t *testing.T) {
 		tot.merged2 += stats[w].merged2
 		tot.merged3 += stats[w].merged3
 		tot.wide += stats[w].wide
+		tot.many += stats[w].many
+		tot.ties += stats[w].ties
+		tot.instant += stats[w].instant
 		for i := range tot.flags {
 			tot.flags[i] += stats[w].flags[i]
 		}
@@ -575,7 +602,8 @@ func TestVerifCodecLayout(t *testing.T) {
 		}
 	}
 	out.row(vRow{"summary": true, "lines": len(lines), "cases": tot.cases, "bad": nbad, "flag_bytes_seen": nf,
-		"merged2": tot.merged2, "merged3": tot.merged3, "wide_payload_cases": tot.wide})
+		"merged2": tot.merged2, "merged3": tot.merged3, "wide_payload_cases": tot.wide,
+		"many_series_cases": tot.many, "tie_cases": tot.ties, "instant_range_cases": tot.instant})
 }
 
 // ---------------------------------------------------------------- CodecSync
@@ -616,7 +644,16 @@ func vSyncState(conc *vConc, ks []int) (channel.Keys, map[channel.Key]telem.Data
 }
 
 // vSyncReplay steps two real codecs through one behaviour of CodecSync.tla.
-func vSyncReplay(hist []vSStep, conc *vConc, static bool) (step int, kind, what string) {
+// vSyncTR is the time range class c (0 zero, 1/2 proper ranges, 3 instant non-zero, 4 Start = 0 < End).
+func vSyncTR(conc *vConc, c int) telem.TimeRange {
+	p := [][2]int{{0, 0}, {2, 3}, {1, 4}, {2, 2}, {0, 3}}[c%5]
+	return telem.TimeRange{Start: conc.ts(p[0]), End: conc.ts(p[1])}
+}
+
+// copies > 1: every frame carries that many series per key, interleaved key by key, all
+// series of a key at the same alignment and non-empty (so they are neither merged nor
+// ordered by anything but their position in the frame).
+func vSyncReplay(hist []vSStep, conc *vConc, static bool, copies int) (step int, kind, what string) {
 	step = -1
 	// a disagreement about what the specification pins beyond the property (seq numbers,
 	// laziness) is remembered and the replay goes on: what the decoder finally returns for
@@ -669,20 +706,29 @@ func vSyncReplay(hist []vSStep, conc *vConc, static bool) (step int, kind, what 
 			for _, k := range st.Ks {
 				inKs[k] = true
 			}
-			for j := len(st.Present) - 1; j >= 0; j-- {
-				k := st.Present[j]
-				dt := conc.fixed[k]
-				if k == 2 {
-					dt = conc.varT
-				}
-				s := telem.Series{DataType: dt, Data: vSeriesDataW(dt, nframe%3, 1+(k+nframe)%2, conc.wide),
-					TimeRange: telem.TimeRange{Start: conc.ts(1), End: conc.ts(2 + k%2)},
-					Alignment: conc.al(5 + (k+nframe)%3)}
-				keys = append(keys, conc.keys[k])
-				ser = append(ser, s)
-				if inKs[k] {
-					wantK = append(wantK, conc.keys[k])
-					wantS = append(wantS, s)
+			for r := 0; r < copies; r++ {
+				for j := len(st.Present) - 1; j >= 0; j-- {
+					k := st.Present[j]
+					dt := conc.fixed[k]
+					if k == 2 {
+						dt = conc.varT
+					}
+					// time range classes: equal across the series of every second frame, distinct otherwise
+					trc := nframe
+					if nframe%2 == 1 || copies > 1 {
+						trc = k + nframe + r
+					}
+					s := telem.Series{DataType: dt, Data: vSeriesDataW(dt, nframe%3+4*r, 1+(k+nframe)%2, conc.wide),
+						TimeRange: vSyncTR(conc, trc), Alignment: conc.al(5 + (k+nframe)%3)}
+					if copies > 1 && r%3 == 2 {
+						s.Alignment = 0
+					}
+					keys = append(keys, conc.keys[k])
+					ser = append(ser, s)
+					if inKs[k] {
+						wantK = append(wantK, conc.keys[k])
+						wantS = append(wantS, s)
+					}
 				}
 			}
 			nframe++
@@ -742,7 +788,7 @@ func TestVerifCodecSync(t *testing.T) {
 		workers = 8
 	}
 	var wg sync.WaitGroup
-	type cnt struct{ replayed, bad, decFrame, decErr, decAhead int }
+	type cnt struct{ replayed, bad, decFrame, decErr, decAhead, many int }
 	cs := make([]cnt, workers)
 	for w := 0; w < workers; w++ {
 		wg.Add(1)
@@ -758,7 +804,12 @@ func TestVerifCodecSync(t *testing.T) {
 				if i%50 == 7 {
 					conc = &vWide
 				}
-				step, kind, what := vSyncReplay(hist, conc, i%3 == 0)
+				copies := 1
+				if i%4 == 1 && conc.wide == 0 {
+					copies = 7 // 14..21 series per frame
+					cs[w].many++
+				}
+				step, kind, what := vSyncReplay(hist, conc, i%3 == 0, copies)
 				cs[w].replayed++
 				for _, st := range hist {
 					if st.A == "dec" && st.Kind == "frame" {
@@ -787,9 +838,10 @@ func TestVerifCodecSync(t *testing.T) {
 		tot.decFrame += c.decFrame
 		tot.decErr += c.decErr
 		tot.decAhead += c.decAhead
+		tot.many += c.many
 	}
 	out.row(vRow{"summary": true, "replayed": tot.replayed, "bad": tot.bad, "dec_frame": tot.decFrame,
-		"dec_error": tot.decErr, "dec_with_older_state": tot.decAhead})
+		"dec_error": tot.decErr, "dec_with_older_state": tot.decAhead, "many_series_histories": tot.many})
 }
 
 // ---------------------------------------------------------------- CodecDecode
